@@ -125,6 +125,9 @@ fn check_private(c: &KeyCase) -> CaseResult {
         ("reference params+pub", der::pkcs8(&d32, true, Some(&b65))),
         ("reference bare", der::pkcs8(&d32, false, None)),
         ("reference params", der::pkcs8(&d32, true, None)),
+        // RFC 5915 allows any SEC1 form for the embedded public key; OpenSSL writes this with -conv_form compressed
+        ("reference compressed-pub", der::pkcs8(&d32, false, Some(&r2::encode_compressed(&q)))),
+        ("reference params+compressed-pub", der::pkcs8(&d32, true, Some(&r2::encode_compressed(&q)))),
     ];
     for (what, bytes) in &variants {
         let s2 = lib_ok!(format!("Sm2PrivateKey::from_pkcs8_der({})", what), Sm2PrivateKey::from_pkcs8_der(bytes));
